@@ -486,7 +486,8 @@ def _build_solution(x_vals, columns, eps):
         if x > eps:
             count = int(round(x))
             if count > 0:
-                solution[columns[i]] = count
+                # a column may be listed more than once (custom mode): add the copies up
+                solution[columns[i]] = solution.get(columns[i], 0) + count
     return solution
 
 
@@ -514,7 +515,7 @@ def _round_solution(x_vals, columns, demands, eps):
     total = 0
     for j in range(n_cols):
         if rounded[j] > 0:
-            solution[columns[j]] = rounded[j]
+            solution[columns[j]] = solution.get(columns[j], 0) + rounded[j]
             total += rounded[j]
 
     return solution, float(total)
